@@ -86,6 +86,11 @@ func (e *Engine) VerifyFn(fc *FnContract) {
 	for _, rq := range fc.Requires {
 		st.Assume(e.evalClause(st, fr, rq, env).(*smt.Term))
 	}
+	for _, in := range fc.Inputs {
+		if t, ok := e.evalClause(st, fr, in, env).(*smt.Term); ok {
+			V.Inputs = append(V.Inputs, NamedTerm{in.C.Label, t})
+		}
+	}
 	st.Pre = st.Clone()
 	V.Pre = st.Pre
 	// vacuity guard: the assumptions at entry (type invariants + requires) must be satisfiable
@@ -1231,6 +1236,9 @@ func (e *Engine) Discharge(obs []*Obligation, opts DischargeOpts) {
 			asserts = append(asserts, e.sentinelAxioms(asserts)...)
 			var vals []*smt.Term
 			if opts.Models {
+				for _, in := range ob.Inputs {
+					asserts = append(asserts, e.C.Eq(e.C.Var("gvcin$"+in.Name, in.T.Sort), in.T))
+				}
 				vals = smt.FreeVars(asserts...)
 				var keep []*smt.Term
 				for _, v := range vals {
@@ -1238,6 +1246,11 @@ func (e *Engine) Discharge(obs []*Obligation, opts DischargeOpts) {
 						keep = append(keep, v)
 					}
 				}
+				sort.SliceStable(keep, func(i, j int) bool {
+					pi := strings.HasPrefix(keep[i].Name, "in$") || strings.HasPrefix(keep[i].Name, "gvcin$")
+					pj := strings.HasPrefix(keep[j].Name, "in$") || strings.HasPrefix(keep[j].Name, "gvcin$")
+					return pi && !pj
+				})
 				vals = keep
 				if len(vals) > 200 {
 					vals = vals[:200]
